@@ -11,6 +11,7 @@ CONSTANTS
   FixInvalidCorrected = FALSE
   FixValidToInvalid = FALSE
   AvoidWindows = FALSE
+  ProcRewritesName = FALSE
 INVARIANTS TypeOK NoDupStore ViewsReadable Converged
 PROPERTIES UnknownIgnored
 CHECK_DEADLOCK FALSE
